@@ -219,15 +219,15 @@ def shrink(case):
             yield dict(case, win=w)
 
 
-LEVEL_TEXT = ('Theorems (Props/C11.v, 7, all closed under the global context) over Model/IoapiGeo.v: for every axis length, every int '
+LEVEL_TEXT = ('Theorems (Props/C11.v, 6, all closed under the global context) over Model/IoapiGeo.v: for every axis length, every int '
               '(positive or negative) and every unit-stride slice, whenever subsetting returns the window lies inside the axis '
               '(C11_window_in_axis, C11_negative_int), every retained cell keeps its edge coordinates for any origin and cell size '
               '(C11_cell_coords_preserved), the level edges are the matching sub-range (C11_vglvls_subrange), the decoded times are the '
               'same sub-range (C11_window_times_subrange); the recomputed SDATE/STIME/TSTEP give every retained step its source instant '
-              'across day/year boundaries for steps shorter than a day (C11_start_step_preserved_partial, on the proved calendar inverses '
-              'of Base/Calendar.v) and the full statement is refuted by a vm_compute witness (25-hour step, C11_start_step_preserved_refuted). '
+              'across day/year boundaries for every step length incl. >= 24 h (C11_start_step_preserved, full strength on the proved '
+              'calendar inverses of Base/Calendar.v; holds for the code repaired by fixes/C11-slice-tstep-ge-24h.patch). '
               'Combined windows are the product of the per-dimension updates (C11_combined_window_inhabited). '
               'Tie H: ioapi_base.sliceDimensions vs the model on every generated case incl. raised errors.')
 LEVEL_NOTE = ('Trusted: Coq kernel + vm_compute; the harness; exactness of binary64/binary32 on the generated dyadic coordinates; '
               'the retained data cells themselves are only observed (C02 models them).')
-TECHNIQUE = 'Coq proof (lia over slice.indices normalisation, firstn/skipn, calendar inverses) + vm_compute refutation witness + differential correspondence'
+TECHNIQUE = 'Coq proof (lia over slice.indices normalisation, firstn/skipn, calendar inverses) + differential correspondence'
